@@ -22,7 +22,10 @@
 (*      spends; a data push of its signature script).  expect = the table:  *)
 (*      matched, and the outputs whose outpoints are inserted.  The         *)
 (*      invariant TxLaws states that the procedure of BloomCode.tla         *)
-(*      computes the table when no two data share a bit position.           *)
+(*      computes the table when no two data share a bit position, and that  *)
+(*      the follow-up transaction spending output i matches exactly when    *)
+(*      the table inserts its outpoint.  Output classes include scripts     *)
+(*      that do not parse, at every position relative to a matching output. *)
 (*    The exact answers for the REAL bit positions (where data may share     *)
 (*    positions) come from TraceBloom.tla.                                  *)
 (***************************************************************************)
@@ -72,14 +75,17 @@ SeqExpect(adds) ==
 
 Flags   == {"none", "all", "p2pubkey"}
 \* output classes and the number of data pushes of their scripts
-Pushes  == [ p2pkh |-> 1, p2pk |-> 1, multisig |-> 2, nulldata |-> 1, nopush |-> 0 ]
+\* ("unparse": a push announcing more bytes than follow, "unparse2": a lone
+\* OP_PUSHDATA1 - scripts that do not parse offer no data push and must not
+\* keep the outputs after them from being looked at)
+Pushes  == [ p2pkh |-> 1, p2pk |-> 1, multisig |-> 2, nulldata |-> 1, nopush |-> 0, unparse |-> 0, unparse2 |-> 0 ]
 Classes == DOMAIN Pushes
 \* an output of the case: class and which push (0: none) was put into the filter
 OutOpts == { [class |-> cl, hit |-> h] : cl \in Classes, h \in 0..2 } \ { o \in [class : Classes, hit : 0..2] : o.hit > Pushes[o.class] }
 \* second outputs of the quick tier: one matching output per update class, one that cannot match
 OutSecond == IF Thorough THEN OutOpts
              ELSE { [class |-> "p2pkh", hit |-> 1], [class |-> "p2pk", hit |-> 1], [class |-> "multisig", hit |-> 2],
-                    [class |-> "nopush", hit |-> 0] }
+                    [class |-> "nopush", hit |-> 0], [class |-> "unparse", hit |-> 0] }
 OutLists == {<< >>} \cup { <<a>> : a \in OutOpts } \cup { <<a, b>> : a \in OutOpts, b \in OutSecond }
 \* inputs: [op, push] = was the spent outpoint / a signature-script push put into the filter
 InOpts  == { [op |-> a, push |-> b] : a \in BOOLEAN, b \in BOOLEAN }
@@ -102,6 +108,11 @@ SymTx(c) ==
                     pushes |-> [j \in 1..Pushes[c.outs[i].class] |-> {10 * i + j}],
                     op     |-> {10 * i + 5} ]],
       ins  |-> [i \in 1..Len(c.ins) |-> [op |-> {100 + 10 * i}, pushes |-> <<{100 + 10 * i + 1}>>]] ]
+\* the follow-up transaction spending output i of the case's transaction
+SymSpender(i) ==
+    [ txid |-> {200 + i},
+      outs |-> <<[class |-> "nopush", pushes |-> << >>, op |-> {300 + i}]>>,
+      ins  |-> <<[op |-> {10 * i + 5}, pushes |-> <<{400 + i}>>]>> ]
 SymPre(c) ==
     (IF c.txid THEN {0} ELSE {})
     \cup { 10 * i + c.outs[i].hit : i \in {k \in 1..Len(c.outs) : c.outs[k].hit > 0} }
@@ -116,6 +127,10 @@ TxLaws ==
         /\ r.bits = SymPre(c) \cup { 10 * i + 5 : i \in expect.inserted }
         \* the point of the update: a transaction spending a matched output matches afterwards
         /\ \A i \in expect.inserted : Matches(r.bits, {10 * i + 5})
+        \* ... and only such a one: the follow-up transaction that spends output i
+        \* (nothing else of it is in the filter) matches iff the outpoint was inserted
+        /\ \A i \in 1..Len(c.outs) :
+              MatchTxAndUpdate(r.bits, c.flag, SymSpender(i)).matched = (i \in expect.inserted)
         /\ (c.flag = "none" => r.bits = SymPre(c))
 
 -----------------------------------------------------------------------------
